@@ -861,6 +861,27 @@ func verifOracleZstdManifest(rep verifReport, id string, blob []byte, nd *ocispe
 	}
 }
 
+// Optional hooks into UNEXPORTED identifiers of the package under test.  They are set by
+// zz_verif_xc19hooks_test.go, which is compiled in only when it still builds against /repo (a
+// refactor may rename what it uses); this file depends on the exported API only.
+var (
+	// the snapshotter's own manifest lookup (fetcher.go fetchTOCBlobFromManifest)
+	verifHookFetch func(ctx context.Context, cs content.Store, mf ocispec.Manifest, layer digest.Digest) ([]byte, error)
+	// a lossless external-TOC converter whose data writer is wrapped by `wrap` (fault injection)
+	verifHookLosslessWith func(wrap func(*esgzexternaltoc.GzipCompression) estargz.Compressor, chunk, level int) (converter.ConvertFunc, func(context.Context, content.Store, string, *ocispec.Descriptor) (*images.Image, error))
+)
+
+// verifLookupTOC is the documented lookup of a layer's TOC in the TOC image: the first manifest layer
+// whose "containerd.io/snapshot/stargz/layer.digest" annotation names the layer; its blob is the TOC.
+func verifLookupTOC(cs content.Store, mf ocispec.Manifest, layer digest.Digest) ([]byte, error) {
+	for _, l := range mf.Layers {
+		if l.Annotations[verifLayerDigestAnn] == layer.String() {
+			return verifReadBlob(cs, l.Digest)
+		}
+	}
+	return nil, errors.New("TOC not found")
+}
+
 type verifStoreFetcher struct{ cs content.Store }
 
 func (f verifStoreFetcher) Fetch(ctx context.Context, desc ocispec.Descriptor) (io.ReadCloser, error) {
@@ -955,10 +976,12 @@ func verifOracleTOCImage(out verifEmitter, rnd *verifutil.Rand, cs content.Store
 			}
 			out.Fail(sig, f[1])
 		}
-		// the real lookup used at mount time
-		got, err := fetchTOCBlobFromManifest(ctx, verifStoreFetcher{cs}, mf, d.nd.Digest)
-		if err != nil || !bytes.Equal(got, tb) {
-			out.Fail("tocimage-fetch-mismatch", fmt.Sprintf("%s: fetchTOCBlobFromManifest(%s): err=%v", id, d.nd.Digest, err))
+		// the real lookup used at mount time (when the hook is available)
+		if verifHookFetch != nil {
+			got, err := verifHookFetch(ctx, cs, mf, d.nd.Digest)
+			if err != nil || !bytes.Equal(got, tb) {
+				out.Fail("tocimage-fetch-mismatch", fmt.Sprintf("%s: the snapshotter's manifest lookup of %s: err=%v", id, d.nd.Digest, err))
+			}
 		}
 		puts = append(puts, put{d.nd.Digest, l.Digest, l.Size})
 	}
@@ -975,18 +998,21 @@ func verifOracleTOCImage(out verifEmitter, rnd *verifutil.Rand, cs content.Store
 		seen[p.layer] = struct{}{}
 		out.Emit(fmt.Sprintf("put %s %s %d", p.layer.Encoded(), p.toc.Encoded(), p.size), fmt.Sprintf("ok n=%d", len(seen)))
 	}
+	// the manifest as a SET of (toc, size, layer): the order of layers is not a clause of C19 (the Go
+	// sort is by TOC digest with unspecified ties); canonical order = by TOC digest, then layer digest
 	var ls []string
 	for _, l := range mf.Layers {
 		ld, _ := digest.Parse(l.Annotations[verifLayerDigestAnn])
 		ls = append(ls, fmt.Sprintf("%s:%d:%s", l.Digest.Encoded(), l.Size, ld.Encoded()))
 	}
+	sort.Strings(ls)
 	line := "layers=-"
 	if len(ls) > 0 {
 		line = "layers=" + strings.Join(ls, ",")
 	}
 	out.Emit("finalize", line)
 	for _, p := range puts {
-		got, err := fetchTOCBlobFromManifest(ctx, verifStoreFetcher{cs}, mf, p.layer)
+		got, err := verifLookupTOC(cs, mf, p.layer)
 		res := "notfound"
 		if err == nil {
 			res = fmt.Sprintf("toc=%s:%d", verifSha(got).Encoded(), len(got))
@@ -994,7 +1020,7 @@ func verifOracleTOCImage(out verifEmitter, rnd *verifutil.Rand, cs content.Store
 		out.Emit("fetch "+p.layer.Encoded(), res)
 	}
 	absent := verifSha(rnd.Bytes(8))
-	if _, err := fetchTOCBlobFromManifest(ctx, verifStoreFetcher{cs}, mf, absent); err == nil {
+	if _, err := verifLookupTOC(cs, mf, absent); err == nil {
 		out.Emit("fetch "+absent.Encoded(), "found")
 	} else {
 		out.Emit("fetch "+absent.Encoded(), "notfound")
@@ -1637,16 +1663,20 @@ func (w *verifCorruptWriter) Write(p []byte) (int, error) {
 // verifLosslessFault: the lossless double check must refuse a writer that changed the stream — with
 // the same length (DiffID check) as well as with another length — and commit nothing it describes.
 func verifLosslessFault(t *testing.T, out *verifutil.Out, rnd *verifutil.Rand, round int) {
+	if verifHookLosslessWith == nil {
+		out.Count("lossless-fault:skipped-no-hook")
+		return
+	}
 	cs := verifNewStore(t)
 	comp := []string{"none", "gzip"}[rnd.Intn(2)]
 	mt := map[string]string{"none": ocispec.MediaTypeImageLayer, "gzip": ocispec.MediaTypeImageLayerGzip}[comp]
 	src := verifNewSrc(t, cs, rnd, mt, comp, fmt.Sprintf("lf%d", round))
 	mode := round % 2
 	chunk := []int{0, 1000, 50000}[rnd.Intn(3)]
-	fn, fin := layerConvert(func(c estargz.Compression) converter.ConvertFunc {
+	fn, fin := verifHookLosslessWith(func(gc *esgzexternaltoc.GzipCompression) estargz.Compressor {
 		done := false
-		return layerLossLessConvertFunc(&verifCorruptCompression{c.(*esgzexternaltoc.GzipCompression), mode, &done}, chunk, 0)
-	}, 1+rnd.Intn(9))
+		return &verifCorruptCompression{gc, mode, &done}
+	}, chunk, 1+rnd.Intn(9))
 	c := &verifConv{target: "exttoc-lossless", variant: "layerLossLessConvertFunc(altering writer)", fn: fn, finalize: fin,
 		optDesc: fmt.Sprintf("chunk=%d,fault=%d", chunk, mode)}
 	out.Comment(fmt.Sprintf("lossless fault mode=%d src=%s", mode, comp))
@@ -1932,4 +1962,22 @@ func TestVerifC19(t *testing.T) {
 	if r := verifutil.EnvInt("VERIF_C19_FINDINGS", 2); r > 0 {
 		verifSharedOpts(out, r)
 	}
+}
+
+// TestVerifC19RaceQuick is what the quick tier runs with the -race binary: the schedules whose failure
+// mode is a data race — many layers through ONE external-TOC converter instance lined up right before
+// their write to the shared TOC map, and parallel conversions by one instance given an option slice with
+// spare capacity — each in a child process; a race report, a fatal error or an oracle failure is reported
+// under the scenario's signature.
+func TestVerifC19RaceQuick(t *testing.T) {
+	if os.Getenv("VERIF_C19_CHILD") != "" {
+		t.Skip("child process")
+	}
+	out := verifutil.OpenOut()
+	defer out.Close()
+	out.Comment("race quick")
+	for i, sc := range []string{"putstress", "putstress-lossless"} {
+		verifRunChild(out, sc, "tocmap-concurrent-write", i)
+	}
+	verifSharedOpts(out, 1)
 }
